@@ -2,7 +2,6 @@ package main
 
 import (
 	"fmt"
-	"sync"
 	"go/constant"
 	"go/token"
 	"go/types"
@@ -10,6 +9,7 @@ import (
 	"math/big"
 	"sort"
 	"strings"
+	"sync"
 
 	"golang.org/x/tools/go/ssa"
 )
@@ -27,14 +27,14 @@ func (h heapState) clone() heapState {
 type addrKind int
 
 const (
-	aField  addrKind = iota // field f of struct object `base` (pointer identity): heap HF_T_f
-	aElem                   // element idx of backing array arr: heap HE_E
-	aCell                   // scalar cell at ref: heap HC_T
-	aLocal                  // non-escaping local variable (versioned like a heap)
-	aSub                    // field of a struct-valued location
-	aArrIdx                 // element of an array-valued location
-	aGlobal                 // package-level variable
-	aWholeArr               // a whole array kept in an element heap (local array variables)
+	aField    addrKind = iota // field f of struct object `base` (pointer identity): heap HF_T_f
+	aElem                     // element idx of backing array arr: heap HE_E
+	aCell                     // scalar cell at ref: heap HC_T
+	aLocal                    // non-escaping local variable (versioned like a heap)
+	aSub                      // field of a struct-valued location
+	aArrIdx                   // element of an array-valued location
+	aGlobal                   // package-level variable
+	aWholeArr                 // a whole array kept in an element heap (local array variables)
 )
 
 type addr struct {
@@ -49,7 +49,7 @@ type addr struct {
 }
 
 type Oblig struct {
-	Block   *ssa.BasicBlock // block the obligation belongs to (context slicing)
+	Block  *ssa.BasicBlock // block the obligation belongs to (context slicing)
 	Name   string
 	Kind   string
 	Props  []string
@@ -82,12 +82,12 @@ type loopInfo struct {
 }
 
 type candidate struct {
-	text  string
-	e     Expr
-	frame string // non-empty: automatic frame candidate for this heap (pre-existing objects unchanged)
-	iterVar, iterName string // candidate "named int variable == hidden iterator count"
-	except []string // frame candidates: parameter names whose objects are exempt
-	alive bool
+	text              string
+	e                 Expr
+	frame             string   // non-empty: automatic frame candidate for this heap (pre-existing objects unchanged)
+	iterVar, iterName string   // candidate "named int variable == hidden iterator count"
+	except            []string // frame candidates: parameter names whose objects are exempt
+	alive             bool
 }
 
 type iterInfo struct {
@@ -101,78 +101,80 @@ type iterInfo struct {
 }
 
 type FnCtx struct {
-	eng           *Engine
-	fn            *ssa.Function
-	con           *Contract
-	key           string
-	sorts         *sorts
-	declSet       map[string]bool
-	decls         []string
-	ctx           []string
-	obligs        []*Oblig
-	vals          map[ssa.Value]string
-	tuples        map[ssa.Value][]string
-	addrs         map[ssa.Value]*addr
-	heapSort      map[string]string
-	heapOrder     []string
-	entry         heapState
-	out           map[*ssa.BasicBlock]heapState
-	reach         map[*ssa.BasicBlock]string
-	edges         map[[2]int]string
-	loops         map[*ssa.BasicBlock]*loopInfo
-	loopList      []*loopInfo
-	order         []*ssa.BasicBlock
-	nfresh        int
-	locals        map[*ssa.Alloc]string
-	iters         map[ssa.Value]*iterInfo
-	closures      map[ssa.Value]*ssa.MakeClosure
-	defers        []*ssa.Defer
-	strlits       map[string]string
-	knownHeaps    map[string]string // from a previous pass: declare all at entry
-	knownLocals   map[string]string
-	cur           heapState
-	curBlock      *ssa.BasicBlock
-	names         map[string]bool
-	opts          *fnOpts
-	sweep         bool // emit safety obligations
-	usedContracts map[string]bool
-	usedExternal  map[string]bool
-	notes         []string
-	retCount      int
-	jsonMode      bool
-	nameCount     map[string]int
-	prevHeap      map[string]string
-	uncontracted  map[string]bool
-	usedSpecFuncs map[string]bool
-	boundFuncs    map[ssa.Value]*ssa.Function
-	state         *fnState
-	axioms        []axiomInst
-	usedAxioms    []string
-	attachErr     string
-	requiresTerms []string
-	reqPrefix     int
-	houdiniObs    []*houdiniOb
-	pendingHavoc  []string
-	finalized     bool
-	cellCache     map[string]*ssa.Alloc
-	sobSeen       map[string]bool
-	captured      map[*ssa.Alloc]bool
-	retOrd        map[*ssa.Return]int
-	volatile      map[string]bool
-	extraGuard    string
-	deferFlags    []string
-	curBindings   []ssa.Value
-	curCallee     *ssa.Function
-	strConsts     map[string]bool
-	usedLemmas    []string
-	ctxBlock      []int
-	ancCache      map[int]map[int]bool
-	ancMu         sync.Mutex
-	covers        []*Oblig
-	readSnaps     map[string]heapState
-	readSnapOrder []string
-	inAxiom       bool
-	nglobals      int
+	eng            *Engine
+	fn             *ssa.Function
+	con            *Contract
+	key            string
+	sorts          *sorts
+	declSet        map[string]bool
+	decls          []string
+	ctx            []string
+	obligs         []*Oblig
+	vals           map[ssa.Value]string
+	tuples         map[ssa.Value][]string
+	addrs          map[ssa.Value]*addr
+	heapSort       map[string]string
+	heapOrder      []string
+	entry          heapState
+	out            map[*ssa.BasicBlock]heapState
+	reach          map[*ssa.BasicBlock]string
+	edges          map[[2]int]string
+	loops          map[*ssa.BasicBlock]*loopInfo
+	loopList       []*loopInfo
+	order          []*ssa.BasicBlock
+	nfresh         int
+	locals         map[*ssa.Alloc]string
+	iters          map[ssa.Value]*iterInfo
+	closures       map[ssa.Value]*ssa.MakeClosure
+	defers         []*ssa.Defer
+	strlits        map[string]string
+	knownHeaps     map[string]string // from a previous pass: declare all at entry
+	knownLocals    map[string]string
+	cur            heapState
+	curBlock       *ssa.BasicBlock
+	names          map[string]bool
+	opts           *fnOpts
+	sweep          bool // emit safety obligations
+	usedContracts  map[string]bool
+	usedExternal   map[string]bool
+	notes          []string
+	retCount       int
+	jsonMode       bool
+	nameCount      map[string]int
+	prevHeap       map[string]string
+	uncontracted   map[string]bool
+	usedSpecFuncs  map[string]bool
+	boundFuncs     map[ssa.Value]*ssa.Function
+	state          *fnState
+	axioms         []axiomInst
+	usedAxioms     []string
+	attachErr      string
+	requiresTerms  []string
+	reqPrefix      int
+	houdiniObs     []*houdiniOb
+	pendingHavoc   []string
+	finalized      bool
+	usedLemmaCalls map[string]bool
+	nclosures      int
+	cellCache      map[string]*ssa.Alloc
+	sobSeen        map[string]bool
+	captured       map[*ssa.Alloc]bool
+	retOrd         map[*ssa.Return]int
+	volatile       map[string]bool
+	extraGuard     string
+	deferFlags     []string
+	curBindings    []ssa.Value
+	curCallee      *ssa.Function
+	strConsts      map[string]bool
+	usedLemmas     []string
+	ctxBlock       []int
+	ancCache       map[int]map[int]bool
+	ancMu          sync.Mutex
+	covers         []*Oblig
+	readSnaps      map[string]heapState
+	readSnapOrder  []string
+	inAxiom        bool
+	nglobals       int
 }
 
 type fnOpts struct {
